@@ -429,6 +429,8 @@ def index(R, v, idx):
                 return v.items[idx]
             raise PyRaise('KeyError')
         raise OutOfReach('dict index with symbolic key')
+    if isinstance(v, ZV) and isinstance(v.kind, tuple) and v.kind[0] == 'arr':
+        return R.wrap(z3.Select(v.e, R.z(idx, v.kind[1])), v.kind[2])
     if not isinstance(v, MapV) and as_map(R, v) is not None:
         v = as_map(R, v)
     if isinstance(v, MapV):
@@ -790,9 +792,11 @@ def _isinstance1(R, v, c):
                 adt = R.S.adts[v.kind]
                 if adt.base_class == q:
                     return True
-                ct = adt.ctor_for_class(q)
-                if ct is not None:
-                    return ct.rec(v.e)
+                cts = [c2 for c2 in adt.ctors if c2.pyclass == q]
+                if len(cts) == 1:
+                    return cts[0].rec(v.e)
+                if cts:
+                    return z3.Or(*[c2.rec(v.e) for c2 in cts])
                 return False
             if v.kind in R.S.records:
                 return _is_subclass(R, R.class_info(R.S.records[v.kind].pyclass), q)
@@ -1201,6 +1205,35 @@ def _b_mk_tconst(R, a, k):
     return ZV(c.con(R.z(a[0], 'str'), R.z(a[1], ('seq', 'Type'))), 'Type')
 
 
+def _b_forall(R, a, k):
+    """forall(kind, lambda x: body): universally quantified formula (specifications only)."""
+    kind, fn = a
+    from .world import parse_kind
+    kind = parse_kind(kind)
+    x = R.fresh(kind, '_all')
+    body = R.tobool(R.call(fn, [x], {}))
+    return ZV(z3.ForAll([x.e], body), 'bool')
+
+
+def _b_lemma_forall(R, a, k):
+    """lemma_forall(lem): assume the proved lemma `lem` universally (hint clauses only)."""
+    from .interp import LemmaV
+    if not isinstance(a[0], LemmaV):
+        raise OutOfReach('lemma_forall needs a lemma')
+    R.use_lemma_forall(a[0].name)
+
+
+def _b_arr_lambda(R, a, k):
+    """arr_lambda(f, a1, .., an): the total function  x |-> f(a1, .., an, x)  for a spec function f."""
+    f = a[0]
+    if not isinstance(f, SpecFnV):
+        raise OutOfReach('arr_lambda needs a spec function')
+    xk = f.pkinds[-1]
+    x = z3.Const(R.fresh_name('_lx'), R.S.sort_of(xk))
+    body = R.call_spec(f, list(a[1:]) + [ZV(x, xk)])
+    return ZV(z3.Lambda([x], R.z(body, f.rkind)), ('arr', xk, f.rkind))
+
+
 def _b_empty_set(R, a, k):
     ek = a[0] if a else 'Term'
     return ZV(z3.EmptySet(R.S.sort_of(ek)), ('set', ek))
@@ -1228,6 +1261,8 @@ BUILTINS = {
     'set_union': mk('set_union', _b_set_union), 'subset': mk('subset', _b_subset),
     'member': mk('member', _b_member), 'empty_set': mk('empty_set', _b_empty_set),
     'seq_map': mk('seq_map', _b_seq_map), 'mk_tconst': mk('mk_tconst', _b_mk_tconst),
+    'arr_lambda': mk('arr_lambda', _b_arr_lambda), 'forall': mk('forall', _b_forall),
+    'lemma_forall': mk('lemma_forall', _b_lemma_forall),
 }
 
 EXTERNALS = {
